@@ -10,6 +10,12 @@
 (*  RecvEOF(conn)  Close(conn)  Loss  (connection lost)                      *)
 (*  SendCall(conn, dlen, hdr, limit) / SendOut(sid, n, sizes, concatOk,      *)
 (*                                 hdrSame) what Send put on the wire        *)
+(*  SendSeq(conn, msgs, failed, frames, emitted, bad)  several Sends in a row *)
+(*                                 on one session, some refused by the       *)
+(*                                 transport part-way; all datagrams that    *)
+(*                                 reached the wire fed in wire order to a   *)
+(*                                 far-side reassembler: `bad` = payloads it *)
+(*                                 emitted that are none of the sent messages*)
 (*  End(open)                      sessions whose Receive has not ended      *)
 EXTENDS Mon
 
@@ -58,6 +64,10 @@ MonStep(m, e, ln) ==
                <<"Send_CountBound", e.n > 255>>,
                <<"Send_Lossless",   e.n > 0 /\ (~e.concatOk \/ ~e.hdrSame)>>,
                <<"Send_WrongSession", e.n > 0 /\ e.sid # e.conn>> >>)]
+    [] e.ev = "SendSeq" ->
+         [m EXCEPT !.viol = VAll(m.viol, e, ln,
+            << <<"Send_ChimeraAcrossMessages", e.bad > 0>>,
+               <<"Send_Lossless", e.failed = 0 /\ e.emitted # e.msgs>> >>)]
     [] e.ev = "End" ->
          [m EXCEPT !.viol = VAll(m.viol, e, ln,
             << <<"LossNotReported", m.lost /\ Len(e.open) > 0>> >>)]
